@@ -774,7 +774,11 @@ struct World {
                 break;
             const StackDesc &dd = g_stacks[op.stack];
             const StackDesc &sd = g_stacks[B.stack];
-            if (storage_len(dd, B.model.ext) > (plan.profile == "bigsweep" ? BIG_STORAGE_CELLS : 300000u))
+            // hugesweep: the destination's (padded) storage is beyond the machine, or beyond
+            // what size_t can count, although the source lattice is small: the conversion must
+            // be refused with an exception
+            bool huge_conv = plan.profile == "hugesweep" && storage_len(dd, B.model.ext) > BIG_STORAGE_CELLS;
+            if (!huge_conv && storage_len(dd, B.model.ext) > (plan.profile == "bigsweep" || plan.profile == "hugesweep" ? BIG_STORAGE_CELLS : 300000u))
                 break;
             destroy_slot(A);
             const SlotOps &o = ops_of(op.stack);
@@ -801,6 +805,18 @@ struct World {
                 cnt.inc("probe.curve_padding_cells_present");
             if (fired && alloc::op_allocs() > 2)
                 cnt.inc("probe.alloc_fault_inside_relayout");
+            if (huge_conv) {
+                cnt.inc("probe.conversion_into_storage_beyond_the_machine_size");
+                if (rcode) {
+                    // any exception is a refusal (bad_alloc from the machine, or the library's own)
+                    std::free(mem);
+                    if (mv)
+                        B.state = S_INDET;
+                    cnt.inc("observed.huge_conversion_refused");
+                    break;
+                }
+                cnt.inc("observed.huge_conversion_returned_a_field");
+            }
             if (rcode) {
                 std::free(mem);
                 if (mv)
@@ -1000,7 +1016,10 @@ struct World {
                 fired
             );
             executed = true;
-            if (stream_fault && (sb.fault_fired || f.torn)) {
+            // A truncated file is a fault whether or not the reader runs into its end: a loader
+            // that measures the stream first (seek to the end and back) refuses it without
+            // ever reaching EOF.
+            if (stream_fault && (sb.fault_fired || f.torn || op.fkind == F_EOF)) {
                 fired = true;
                 cnt.inc(op.fkind == F_EOF ? "fired.eof" : (op.fkind == F_IOTHROW ? "fired.iothrow" : "fired.torn_file"));
                 if (op.fkind == F_EOF) {
@@ -1696,6 +1715,58 @@ Plan gen_huge_plan(const std::string &property, uint64_t seed, uint64_t index, b
     }
     if (st.empty())
         return p;
+    // every third plan: a SMALL row-major lattice with one long axis, converted into a curve
+    // layout whose padded storage (side^N) the machine cannot hold or size_t cannot count
+    if (index % 3 == 2) {
+        std::vector<std::pair<int, int>> pairs; // dst, src
+        for (int k = 0; k < g_nconv; ++k) {
+            const StackDesc &dd = g_stacks[g_conv_pairs[k][0]], &sd = g_stacks[g_conv_pairs[k][1]];
+            if (!(thorough || (dd.tier == 0 && sd.tier == 0)) || dis.core(dd) || dis.core(sd) || dis.conv(dd, sd) || dd.device || sd.device)
+                continue;
+            if (sd.layers[sd.layout_depth].kind != LK_STRIDED || dd.layers[dd.layout_depth].kind == LK_STRIDED || sd.N < 2)
+                continue;
+            pairs.push_back({dd.index, sd.index});
+        }
+        if (!pairs.empty()) {
+            auto pr = pairs[(index / 3) % pairs.size()];
+            const StackDesc &sd = g_stacks[pr.second];
+            Op c;
+            c.kind = OP_CONSTRUCT;
+            c.a = 0;
+            c.stack = sd.index;
+            // padded side 2^k with N*k between 40 and 70 bits, source lattice at most ~2^22 cells
+            int lo = (40 + sd.N - 1) / sd.N, hi = std::min(70 / sd.N, 22);
+            if (lo <= hi && (size_t(1) << lo) * (size_t)sd.M <= BIG_SCALARS) {
+                int k = (int)rk.range(lo, hi);
+                while (k > lo && ((size_t(1) << k) + 1) * (size_t)sd.M > BIG_SCALARS)
+                    --k;
+                size_t L = (size_t(1) << k);
+                if (rk.chance(0.5) && k > lo)
+                    L = L / 2 + 1 + (size_t)rk.below(3); // rounds up to the same side
+                c.ext.assign(sd.N, 1);
+                c.ext[rk.below(sd.N)] = L;
+                for (int q = 0; q < sd.N; ++q)
+                    if (c.ext[q] == 1 && rk.chance(0.3) && volume(c.ext) * 2 * (size_t)sd.M <= BIG_SCALARS)
+                        c.ext[q] = 2;
+                c.vseed = rk.next() & 0xffffffffffffull;
+                p.nslots = 3;
+                p.ops.push_back(c);
+                Op cv;
+                cv.kind = rk.chance(0.8) ? OP_CONVERT_COPY : OP_CONVERT_MOVE;
+                cv.a = 1;
+                cv.b = 0;
+                cv.stack = pr.first;
+                cv.vseed = rk.next() & 0xffffffffffffull;
+                p.ops.push_back(cv);
+                Op lk;
+                lk.kind = OP_LOOKUP;
+                lk.a = 0;
+                lk.vseed = rk.next() & 0xffffffffffffull;
+                p.ops.push_back(lk);
+                return p;
+            }
+        }
+    }
     const StackDesc &d = g_stacks[st[index % st.size()]];
     Op c;
     c.kind = OP_CONSTRUCT;
